@@ -42,33 +42,23 @@ impl Rng {
     }
 }
 
-/// Coq `spec_float` literal (notations F / Zr / Inf / NaN from Run/Harness.v), bit-exact.
-#[cfg(not(feature = "float"))]
+/// Coq `spec_float` term, bit-exact: `(P <hex float literal>)` (P = Prim2SF; primitive float literals
+/// parse ~15x faster than big integer literals), `(Zr s)`, `(Inf s)`, `NaN` (Run/Harness.v).
+/// An f32 is widened exactly to f64 first.
 pub fn sf(x: Float) -> String {
+    let x = x as f64;
     let bits = x.to_bits();
-    let s = if bits >> 63 == 1 { "true" } else { "false" };
+    let neg = bits >> 63 == 1;
+    let s = if neg { "true" } else { "false" };
     let e = ((bits >> 52) & 0x7ff) as i64;
     let m = bits & 0x000f_ffff_ffff_ffff;
     if e == 0x7ff {
         if m == 0 { format!("(Inf {})", s) } else { "NaN".to_string() }
-    } else if e == 0 {
-        if m == 0 { format!("(Zr {})", s) } else { format!("(F {} {} (-1074))", s, m) }
+    } else if e == 0 && m == 0 {
+        format!("(Zr {})", s)
     } else {
-        format!("(F {} {} ({}))", s, m | (1u64 << 52), e - 1075)
-    }
-}
-#[cfg(feature = "float")]
-pub fn sf(x: Float) -> String {
-    let bits = x.to_bits();
-    let s = if bits >> 31 == 1 { "true" } else { "false" };
-    let e = ((bits >> 23) & 0xff) as i64;
-    let m = (bits & 0x007f_ffff) as u64;
-    if e == 0xff {
-        if m == 0 { format!("(Inf {})", s) } else { "NaN".to_string() }
-    } else if e == 0 {
-        if m == 0 { format!("(Zr {})", s) } else { format!("(F {} {} (-149))", s, m) }
-    } else {
-        format!("(F {} {} ({}))", s, m | (1u64 << 23), e - 150)
+        let body = if e == 0 { format!("0x0.{:013x}p-1022", m) } else { format!("0x1.{:013x}p{}", m, e - 1023) };
+        if neg { format!("(P (-{}))", body) } else { format!("(P {})", body) }
     }
 }
 /// JSON: the bit pattern as an integer (exact; the Python side rebuilds the float)
